@@ -4,3 +4,4 @@ pub mod c29;
 pub mod c31;
 pub mod c32;
 pub mod c33;
+pub mod c36;
